@@ -290,7 +290,8 @@ class Input(object):
             self.script = script
             if len(self.signatures):
                 self.hash_type = self.signatures[0].hash_type
-            sigs_required = script.sigs_required
+            if script.keys or not sigs_required:
+                sigs_required = script.sigs_required
             if len(script.script_types) == 1 and not self.script_type:
                 self.script_type = script.script_types[0]
         if self.locking_script and not self.signatures:
